@@ -33,6 +33,7 @@ type AtClause struct {
 	Kind   string // "assert", "ghost", "assume-trusted"
 	Clause *Clause
 	Ghost  string // for ghost: "name = expr" / "name++"
+	After  bool   // evaluated after the call returned (`after call ...`); `result`, `result0`... name the results
 }
 
 type GhostDecl struct {
@@ -118,7 +119,7 @@ var propsRe = regexp.MustCompile(`^@([A-Z0-9,]+)\s+`)
 
 var clauseKeywords = map[string]bool{
 	"func": true, "iface": true, "fieldfunc": true, "spec": true, "lemma": true, "axiom": true, "modset": true, "requires": true, "ensures": true, "modifies": true, "loop": true,
-	"invariant": true, "decreases": true, "trusted": true, "props": true, "ghost": true, "at": true,
+	"invariant": true, "decreases": true, "trusted": true, "props": true, "ghost": true, "at": true, "after": true,
 	"pure": true, "nopanic": true, "paths": true, "forget": true, "uses": true, "replay": true, "bounded": true, "skip": true, "note": true,
 }
 
@@ -374,12 +375,14 @@ func (cs *ContractSet) ParseContractFile(pkgPath, filename string, f *ast.File, 
 					g.Init = cl
 				}
 				cur.Ghosts = append(cur.Ghosts, g)
-			case "at":
-				// at call[N] callee: assert[label] expr | ghost x = expr
+			case "at", "after":
+				// at call [N] callee: assert[label] expr | ghost x = expr     (before the call, arguments evaluated)
+				// after call [N] callee: ...                                  (after it returned; result, result0, ... bound)
 				at, err := parseAt(rest, mk)
 				if err != nil {
 					return fmt.Errorf("%s:%d: %v", filename, l.line, err)
 				}
+				at.After = kw == "after"
 				cur.Ats = append(cur.Ats, at)
 			default:
 				return fmt.Errorf("%s:%d: unknown clause keyword %q", filename, l.line, kw)
